@@ -643,7 +643,7 @@ class RECFM_VB(RECFM_Reader):
             block_data = self.source.read(blksize - 4)
             offset = 0
             while offset != len(block_data):
-                assert offset + 4 < len(block_data), "Corrupted Data Block {!r}".format(
+                assert offset + 4 <= len(block_data), "Corrupted Data Block {!r}".format(
                     block_data
                 )
                 rdw = block_data[offset : offset + 4]
